@@ -9,7 +9,7 @@ from . import pcommon as pc
 def run(tier):
     ck = C.Check("C02", tier)
     failed = ck.proofs()
-    n_g, n_r = (45, 10) if tier == "quick" else (700, 30)
+    n_g, n_r = (45, 10) if tier == "quick" else (400, 24)
     res = P.run_family(ck, n_g, n_r, p_err=0.0, want_hist=True, extra=[P.D16_GRAMMAR])
     ties = pc.tie_violations(ck, res, want_kinds=("parse",))
     stats = {"grammars": len(res), "lr1": 0, "verdicts": 0, "accepted": 0, "rejected": 0, "max_len": 0, "fuel_or_panic": 0}
